@@ -356,11 +356,13 @@ pub fn not_starting_with_a_digit(identifier: String) -> String {
 }
 
 /// The PascalCase type name for an XML name; `Self` is the only keyword of that form and cannot
-/// be written as a raw identifier.
+/// be written as a raw identifier. A type called like one of the names the generated code uses
+/// unqualified inside the namespace modules (`Option<..>`, `Vec<..>`, `String`, `Rc<..>`,
+/// `..Default::default()`, the `CheckRestrictions` trait) would shadow it there.
 pub fn as_type_name(xml_name: &str) -> String {
     let type_name = to_pascal_case(xml_name);
     match type_name.as_str() {
-        "Self" => "Self_".to_string(),
+        "Self" | "Option" | "Vec" | "String" | "Rc" | "Default" | "CheckRestrictions" => format!("{type_name}_"),
         // a name made of separators only, such as `_`
         "" => "Unnamed".to_string(),
         _ => not_starting_with_a_digit(type_name),
